@@ -49,12 +49,13 @@ var Registry = map[string]engine.Spec{
 
 // Aux are helper entry points run in fresh child processes by some checks.
 var Aux = map[string]func(args []string) int{
-	"c07ref":   c07.Aux,
-	"c04probe": c04.Aux,
-	"c18hist":  c18.Aux,
-	"c17race":  c17.Aux,
-	"c17first": c17.AuxFirst,
-	"c11race":  c11.Aux,
-	"c06ref":   c06.Aux,
-	"c05ref":   c05.Aux,
+	"c07ref":      c07.Aux,
+	"c04probe":    c04.Aux,
+	"c18hist":     c18.Aux,
+	"c17race":     c17.Aux,
+	"c17first":    c17.AuxFirst,
+	"c20syscalls": store.AuxSyscalls,
+	"c11race":     c11.Aux,
+	"c06ref":      c06.Aux,
+	"c05ref":      c05.Aux,
 }
